@@ -377,6 +377,38 @@ func c18(repo string, out *fg.Out) error {
 	for _, mf := range mainFiles {
 		invalidateCallers += len(fg.CallsNamed(mf.AST, "InvalidateCaches"))
 	}
+	// the post-compaction hook QueryHandler.InvalidateCaches: which caches does it clear?
+	ic := qf.FuncDecl("QueryHandler", "InvalidateCaches")
+	if ic == nil {
+		return fmt.Errorf("query.go: (*QueryHandler).InvalidateCaches not found")
+	}
+	clearsTransform, callsPrunerAll := false, false
+	for _, c := range fg.CallsNamed(ic.Body, "Invalidate") {
+		if strings.Contains(qf.Text(c.Fun), "queryCache") {
+			clearsTransform = true
+		}
+	}
+	for _, c := range fg.CallsNamed(ic.Body, "InvalidateAllCaches") {
+		if strings.Contains(qf.Text(c.Fun), "pruner") {
+			callsPrunerAll = true
+		}
+	}
+	iac := f.FuncDecl("PartitionPruner", "InvalidateAllCaches")
+	if iac == nil {
+		return fmt.Errorf("(*PartitionPruner).InvalidateAllCaches not found")
+	}
+	iacText := f.Text(iac.Body)
+	clearsPruner := callsPrunerAll && strings.Contains(iacText, "p.globCache.invalidate()") && strings.Contains(iacText, "p.partitionCache.invalidate()")
+	// the hook is wired to compaction completion in cmd/arc
+	compactionHook := false
+	for _, mf := range mainFiles {
+		for _, c := range fg.CallsNamed(mf.AST, "SetOnCompactionComplete") {
+			if len(fg.CallsNamed(c, "InvalidateCaches")) > 0 {
+				compactionHook = true
+			}
+		}
+	}
+
 	// does any ingest / flush path invalidate the pruner caches?  (expected: no)
 	ingestInvalidates := 0
 	for _, dir := range []string{"internal/ingest", "internal/wal", "internal/storage"} {
@@ -439,6 +471,9 @@ func c18(repo string, out *fg.Out) error {
 	fmt.Fprintf(w, "/-- every table reference of a statement is pruned with the text of the WHOLE statement -/\ndef prunesWithWholeStatement : Bool := %v\n", wholeSQL)
 	fmt.Fprintf(w, "def invalidateCallersInMain : Nat := %d\n", invalidateCallers)
 	fmt.Fprintf(w, "def ingestInvalidations : Nat := %d\n", ingestInvalidates)
+	fmt.Fprintf(w, "/-- QueryHandler.InvalidateCaches calls h.queryCache.Invalidate() (the SQL transform cache, whose entries embed the pruned path list) -/\ndef invalidateClearsTransform : Bool := %v\n", clearsTransform)
+	fmt.Fprintf(w, "/-- QueryHandler.InvalidateCaches calls h.pruner.InvalidateAllCaches(), which clears the glob and the partition cache -/\ndef invalidateClearsPruner : Bool := %v\n", clearsPruner)
+	fmt.Fprintf(w, "/-- cmd/arc wires InvalidateCaches into compactionManager.SetOnCompactionComplete -/\ndef compactionCallsInvalidate : Bool := %v\n", compactionHook)
 	fmt.Fprintf(w, "end Arc.Generated.C18\n")
 
 	out.JSON["max_partition_paths"] = maxPaths
@@ -452,6 +487,8 @@ func c18(repo string, out *fg.Out) error {
 	out.JSON["end_patterns"] = lists["endTimePatterns"]
 	out.JSON["between_pattern"] = single["betweenPattern"]
 	out.JSON["layouts"] = layouts
+	out.JSON["invalidate_clears_transform"] = clearsTransform
+	out.JSON["invalidate_clears_pruner"] = clearsPruner
 	out.JSON["loop"] = map[string]any{"init": loopInit, "cond": loopCond, "step": loopStep, "day_level": dayLoop}
 	return nil
 }
